@@ -14,7 +14,7 @@
     universally quantified everywhere.  [ref_run] is the cache-free reference: texts are kept as
     given and expanded from the ORIGINAL with the CURRENT tab width whenever they are looked at. *)
 From IndModel Require Import Base Tabs TabsEnv.
-From IndModel Require Keys.
+From IndModel Require Keys Fmt.
 From IndModel Require Padded.
 From IndGen Require Import Constants.
 From IndProofs Require Import TabsProofs TabsEnvProofs.
@@ -94,7 +94,7 @@ Print Assumptions C16_no_tab_formatters.
     "{spinner}" - although every hypothesis of C16_no_tab holds; with the arm as it is now the
     same frame is TAB-free.  [ref_lines_gen false] is the rendering the theorems above are
     about; [ref_lines_gen true] is used by no other statement. *)
-Theorem C16_no_tab_pre_6ff82af_refuted :
+Theorem C16_no_tab_pre_6ff82af_regression :
   exists (E : env) (ops : list op),
     env_ok E /\ Forall op_ok ops /\
     let r := fst (ref_run E rbar_init ops) in
@@ -103,7 +103,7 @@ Proof.
   exact (ex_intro _ exE0 (ex_intro _ pre_6ff82af_ops
            (conj C16_ex_env0_ok (conj C16_ex_pre_6ff82af_ops_ok (pre_6ff82af_frame exE0))))).
 Qed.
-Print Assumptions C16_no_tab_pre_6ff82af_refuted.
+Print Assumptions C16_no_tab_pre_6ff82af_regression.
 
 (** What format_state does to a placeholder's text keeps it TAB-free, whatever the column
     widths are: padding / truncation of a sized field (PaddedStringDisplay), trimming, and the
@@ -151,16 +151,24 @@ Theorem C16_expand_spec : forall (s : text) (w : N),
 Proof. intros s w. exact (conj (expand_no_tab s w) (conj (expand_notab s w) (expand_length s w))). Qed.
 Print Assumptions C16_expand_spec.
 
-(** Every theorem above takes a call as ONE step: read the tab width, build the TabExpandedString,
-    store it, draw.  That is sound against other threads holding clones of the handle only if
-    the call is a single outermost critical section over the bar mutex.  Tied to the source: for
-    every op of the alphabet and every Rust method it stands for, on EVERY path of the method's
-    lock footprint (table regenerated from /repo/src on every run, tools/locks_extract.py):
-    exactly one section over the bar mutex, the draw (MultiState lock), BarState::tick and every
-    callback inside it, the mutex never given up in between - at most one for `tick` (nothing
-    happens while a steady ticker runs); `drop` runs with exclusive ownership and never takes it.
+(** The theorems above are SEQUENTIAL: [run] executes one op after the other.  Against other
+    threads holding clones of the handle they need that each RUST CALL does "read the tab width,
+    build the TabExpandedString, store it, draw" inside one critical section over the bar mutex.
+    That is what is tied to the source here: for every op of the alphabet and every Rust method
+    it stands for ([c16_call]), on EVERY path of the method's lock footprint (table regenerated
+    from /repo/src on every run, tools/locks_extract.py): exactly one outermost section over the
+    bar mutex, with the draw (MultiState lock), BarState::tick and every callback inside it and
+    the mutex never given up in between - at most one for `tick` (nothing happens while a steady
+    ticker runs); `drop` runs with exclusive ownership and never takes it.
     A set_message that reads the width in one section and stores the text in a second one
-    (seeded defect C16-5) breaks this obligation. *)
+    (seeded defect C16-5) breaks this obligation.
+    NOT claimed: an op that is SEVERAL calls is atomic as a whole.  [SetStyleDerived]
+    = `pb.set_style(pb.style().template(..))` is two calls (style(), then set_style / with_style)
+    with a window in between; [SetStyleNew] builds the style away from the bar and is one call on
+    it; [FinishUsingStyle] and [Tick] list ALTERNATIVE methods (finish_using_style or drop; tick
+    or update), each a single call.  Another thread may act inside that window; each of its calls
+    is again one step, so the result is a sequential history of the model in some interleaving -
+    the one [run] is applied to. *)
 Theorem C16_calls_atomic : forall (o : op) (name : String.string),
   In name (BracketsC16.c16_call o) ->
   exists p, Locks.pg_lookup name LockFootprints.all_programs = Some p /\
